@@ -243,10 +243,11 @@ def clause_c(repo, chk):
     stored = False
     for n in walk_local(sp_fn.node):
         if isinstance(n, ast.Call) and isinstance(n.func, ast.Attribute) and n.func.attr == "assign":
-            if any(isinstance(x, ast.Call) and isinstance(x.func, ast.Attribute) and x.func.attr == "_std_polar_angle" for a in n.args for x in ast.walk(a)):
+            assign_args = list(n.args) + [k_.value for k_ in n.keywords]   # p.assign(x) or p.assign(value=x)
+            if any(isinstance(x, ast.Call) and isinstance(x.func, ast.Attribute) and x.func.attr == "_std_polar_angle" for a in assign_args for x in ast.walk(a)):
                 stored = True
             # or via a local
-            for a in n.args:
+            for a in assign_args:
                 if isinstance(a, ast.Name):
                     for m in walk_local(sp_fn.node):
                         if isinstance(m, ast.Assign) and isinstance(m.targets[0], ast.Name) and m.targets[0].id == a.id and any(isinstance(x, ast.Call) and isinstance(x.func, ast.Attribute) and x.func.attr == "_std_polar_angle" for x in ast.walk(m.value)):
